@@ -100,7 +100,7 @@ PROPS = {
     },
     "C08": {
         "level": "proof",
-        "suites": ["hist", "mixed", "crash", "epoch"],
+        "suites": ["hist", "mixed", "crash", "crash_coarse", "epoch"],
         "columns": ["files", "cache"],
         "rule": "same histories and crash points as C07; monitor: the set of contents at ever-declared target paths and in the cache before each build/clean "
                 "is a subset of the set afterwards (and at every crash point outside a command), and no rename by ruler goes over a target or cache "
@@ -212,7 +212,7 @@ PROPS = {
     },
     "C10": {
         "level": "proof",
-        "suites": ["c10_clean_build", "swap", "real_c10", "memsys_selftest"],
+        "suites": ["c10_clean_build", "swap", "mixed", "real_c10", "memsys_selftest"],
         "columns": ["verdict", "cmds", "files", "cache"],
         "rule": "scenarios: generated rule graph (half with pairwise different target contents), sources, optional goal build and edit, full build, optional chmod, clean with a goal "
                 "choice, build with a goal choice; 150 quick / 2000 thorough on the in-memory System compared op by op with the model, and 10 / 120 with the REAL binary and sh "
